@@ -49,6 +49,7 @@ from numpy import (
 from sympy import (
     Basic,
     Expr,
+    Symbol,
     latex,
     limit,
     sympify,
@@ -381,7 +382,7 @@ class Element(ABC):
 
             if not substitute:
                 if self._label != "":
-                    repl = f"{key}_{self._label}"
+                    repl = Symbol(f"{key}_{self._label}")
                 elif identifier >= 0:
                     repl = f"{key}_{identifier}"
                 else:
@@ -1771,7 +1772,7 @@ class Container(Element):
             repl: Union[str, float, Expr]
             if not substitute:
                 if self._label != "":
-                    repl = f"{key}_{self._label}"
+                    repl = Symbol(f"{key}_{self._label}")
                 elif identifier >= 0:
                     repl = f"{key}_{identifier}"
                 else:
